@@ -248,7 +248,7 @@ def main(argv):
     # Kani harnesses
     kani_results = []
     kani_list = list(pdef.get("kani_quick", [])) + (list(pdef.get("kani_thorough", [])) if tier == "thorough" else [])
-    if kani_list and not replay:
+    if kani_list and not replay and not os.environ.get("VERIF_NO_KANI"):  # VERIF_NO_KANI: dev-only switch used by tools/seedall.sh (never set by the registered commands)
         import kani_run
         kani_results = kani_run.run(pid, kani_list, os.path.join(base, "kani"))
 
